@@ -2,6 +2,8 @@ package main
 
 import (
 	"fmt"
+	"go/token"
+	"go/types"
 	"strings"
 
 	"golang.org/x/tools/go/ssa"
@@ -98,6 +100,19 @@ func checkC20(p *Prog, r *Report) {
 			for _, s := range secs {
 				commonLocks[s]++
 			}
+			// the lock must be as wide as the data: the use-case data belongs to the device's node management
+			// (shared by all entities), so a lock that is a field of the entity does not exclude the other entities
+			owner := Path(setCall.Call.Value)
+			wide := false
+			for _, s := range secs {
+				if strings.HasPrefix(s, "global:") {
+					wide = true
+				}
+				if i := strings.LastIndex(s, "."); i > 0 && strings.HasPrefix(owner, s[:i]) && s[:i] != "recv" {
+					wide = true // a lock of the object that owns the data (or of an object it is reached through)
+				}
+			}
+			r.Check("R1", base+"|lock-scope", wide, p.InstrPos(setCall), fmt.Sprintf("the cycle works on data of %s under the locks %v: the lock must be shared by every entity of the device (package level, or owned by the device / its node management), not per entity", owner, secs))
 		}
 	}
 	same := false
@@ -129,6 +144,7 @@ func checkC20(p *Prog, r *Report) {
 	}
 	r.Check("R2", "summary:model.UseCaseInformationDataType.Add", found, "", "recognised as writing elements of its receiver's UseCaseSupport list (callers must hand it a private list)")
 
+	sliceEqualityLint(p, r, "R6")
 	r.Rule("R3", "RemoveEntity removes all use cases of the removed entity, unconditionally")
 	dli := p.LookupIface("api", "DeviceLocalInterface")
 	for _, fn := range p.ImplsOf(dli, "RemoveEntity") {
@@ -228,4 +244,109 @@ func addressKeyOK(v ssa.Value) (bool, string) {
 	}
 	ok = strings.HasPrefix(got["Device"], "recv.") && strings.HasSuffix(got["Device"], ".address.Device") && strings.HasPrefix(got["Entity"], "recv.") && strings.HasSuffix(got["Entity"], ".address.Entity") && got["Feature"] == ""
 	return ok, fmt.Sprintf("{Device: %s, Entity: %s, Feature: %s}", got["Device"], got["Entity"], got["Feature"])
+}
+
+// sliceEqualityLint: a hand-written element-wise comparison of two slices of the
+// same type (a function returning bool that indexes both) decides equality only
+// if it compares the two lengths for equality; a one-sided length test makes it
+// a prefix match.
+func sliceEqualityLint(p *Prog, r *Report, rule string) {
+	r.Rule(rule, "every hand-written element-wise comparison of two slices of one type compares their lengths for equality (no prefix matching of entity addresses); the use-case look-up compares addresses with such a helper or with reflect.DeepEqual/slices.Equal")
+	n := 0
+	for _, fn := range p.RepoFns("model", "spine", "util") {
+		if fn.Signature.Results().Len() != 1 || !isBoolType(fn.Signature.Results().At(0).Type()) {
+			continue
+		}
+		var sl []*ssa.Parameter
+		for _, par := range fn.Params {
+			if _, ok := par.Type().Underlying().(*types.Slice); ok {
+				sl = append(sl, par)
+			}
+		}
+		for i := 0; i < len(sl); i++ {
+			for j := i + 1; j < len(sl); j++ {
+				a, b := sl[i], sl[j]
+				if !types.Identical(a.Type(), b.Type()) {
+					continue
+				}
+				ta, tb := forwardTaint(a), forwardTaint(b)
+				elemCmp, lenEq, lenOther := false, false, false
+				for _, blk := range fn.Blocks {
+					for _, ins := range blk.Instrs {
+						bo, ok := ins.(*ssa.BinOp)
+						if !ok {
+							continue
+						}
+						isLen := func(v ssa.Value, par *ssa.Parameter) bool {
+							c, ok := v.(*ssa.Call)
+							return ok && builtinName(&c.Call) == "len" && c.Call.Args[0] == ssa.Value(par)
+						}
+						switch {
+						case (isLen(bo.X, a) && isLen(bo.Y, b)) || (isLen(bo.X, b) && isLen(bo.Y, a)):
+							if bo.Op == token.EQL || bo.Op == token.NEQ {
+								lenEq = true
+							} else {
+								lenOther = true
+							}
+						case (bo.Op == token.EQL || bo.Op == token.NEQ) && ((ta[bo.X] && tb[bo.Y] && !isLen(bo.X, a)) || (tb[bo.X] && ta[bo.Y] && !isLen(bo.X, b))):
+							elemCmp = true
+						}
+					}
+				}
+				if !elemCmp {
+					continue
+				}
+				n++
+				r.Check(rule, fmt.Sprintf("%s|%s~%s", FnName(fn), a.Name(), b.Name()), lenEq, p.Pos(fn.Pos()), fmt.Sprintf("element-wise comparison of %s and %s; lengths compared for equality: %v (one-sided length test: %v)", a.Name(), b.Name(), lenEq, lenOther))
+			}
+		}
+	}
+	r.Stat(rule+".hand-written slice comparisons", n)
+	// the look-up itself: every condition on the entry's entity address is one of the accepted primitives
+	idx := p.Method("model", "NodeManagementUseCaseDataType", "useCaseInformationIndex")
+	if idx == nil {
+		// an unexported helper may be renamed: find the method of the type that ranges UseCaseInformation and returns (int, bool)
+		for _, fn := range p.RepoFns("model") {
+			if fn.Signature.Recv() != nil && isNamed(derefType(fn.Signature.Recv().Type()), "model", "NodeManagementUseCaseDataType") && fn.Signature.Results().Len() == 2 && isBoolType(fn.Signature.Results().At(1).Type()) {
+				idx = fn
+			}
+		}
+	}
+	if idx == nil {
+		r.Undecided(rule, "anchor:use-case look-up", "", "look-up helper of NodeManagementUseCaseDataType not found")
+		return
+	}
+	nCmp := 0
+	forEachCall(idx, func(site ssa.CallInstruction) {
+		c, ok := site.(*ssa.Call)
+		if !ok || len(c.Call.Args) < 2 {
+			return
+		}
+		mentions := false
+		for _, a := range c.Call.Args {
+			if strings.HasSuffix(Path(a), ".Address.Entity") || strings.HasSuffix(Path(a), ".Address.Device") {
+				mentions = true
+			}
+		}
+		if !mentions {
+			return
+		}
+		nCmp++
+		callee := c.Call.StaticCallee()
+		okPrim := false
+		name := "?"
+		if callee != nil {
+			name = FnName(callee)
+			switch {
+			case fnPkgPath(callee) == "reflect" && callee.Name() == "DeepEqual":
+				okPrim = true
+			case fnPkgPath(callee) == "slices" && originName(callee) == "Equal":
+				okPrim = true
+			case p.IsRepoFn(callee):
+				okPrim = true // a repository helper: judged by the lint above
+			}
+		}
+		r.Check(rule, fmt.Sprintf("%s|address-comparison#%d", p.StableName(idx), nCmp), okPrim, p.InstrPos(c), "addresses compared by "+name)
+	})
+	r.Floor(rule, "address comparisons in the use-case look-up", nCmp, 2)
 }
